@@ -18,6 +18,15 @@ add("C18", E1, "exploration", "Seeded histories creating, editing and deleting c
 add("C19", E1, "exploration", "Seeded creates and renames from a tiny name/uuid pool on 1-3 replicas with random replication schedules; after every commit no two live entries share a uuid or a unique attribute value.", SIMNOTE, "deterministic simulation + uniqueness oracle after every commit", "DESIGN.md §5 C19")
 add("C22", E1, "exploration", "Seeded creates/renames of accounts and groups interleaved with domain renames and restarts on one server; after every commit each live account/group has exactly one spn == name@domain.", SIMNOTE, "deterministic simulation + SPN-shape oracle after every commit", "DESIGN.md §5 C22")
 
+add("C07", E1, "exploration", "Seeded histories of write transactions whose per-node clock is drawn adversarially (repeats, regressions of seconds to days, jumps), with abandoned transactions, replication applies, refreshes and crash/restart on file-backed servers; per server uuid the change time of every committed transaction must exceed that of every earlier committed one, across incarnations.", SIMNOTE, "deterministic simulation with clock faults and crash/restart + change-id monotonicity monitor", "DESIGN.md §5 C07")
+add("C09", E1, "exploration", "Seeded delete/revive/purge-heavy histories on 2-3 replicas with the simulated clock jumping around the 7-day recycle-bin and changelog windows and replication delayed by up to several windows; a node that applied a tombstone must never hold that uuid live again, and at a fully converged quiescence no replica holds it live.", SIMNOTE, "deterministic simulation with time jumps, lag and refresh + no-resurrection monitor", "DESIGN.md §5 C09")
+add("C10", E1, "exploration", "Monitor on every supplier step of lag-heavy simulated histories (trimming, lag beyond the window, refresh): the supplier's reply is compared with an independent decision function written from the property statement, evaluated on the consumer's ranges and the supplier's trimmed ranges.", SIMNOTE, "deterministic simulation + reference decision function as monitor on every supplier step", "DESIGN.md §5 C10")
+EXT = "Real source compiled from /repo's working tree into an external harness (see DESIGN.md §4); sampled, not exhaustive; the harness's own reference model is self-tested."
+add("C14", "E6 codec (sim-codec)", "exploration", "The real replication codec over real tokio_util Framed/FramedRead/FramedWrite on a scripted in-memory duplex pipe: seeded message sequences, systematic splits into ≤3 chunks and closes at every byte offset for small pairs, random fragmentation/coalescing/Pending/EOF, frame lengths around the limit; decoded sequence must equal the sent one and bad frames must be rejected.", EXT + " TCP/TLS and the tokio reactor are replaced by the scripted pipe and a hand-written poll loop.", "deterministic simulation of the byte stream (fragmentation, partial writes, early close) + reference framer oracle", "DESIGN.md §5 C14")
+add("C43", "E8a pam (sim-pam)", "exploration", "The real PAM core (test-cfg shadow build) against scripted resolver-daemon reply sequences pre-queued in a socketpair (wrong kinds, errors, truncated/garbage frames, early disconnects) or generated passwd/shadow databases with a simulated clock; PAM_SUCCESS must imply explicit daemon success, or (daemon unreachable) a supported hash that verifies and an unexpired account.", EXT + " Daemon, PamHandler, clock and sleep are scripted; libpam and the extern C hooks are not run.", "deterministic simulation with scripted peer faults (bad replies, disconnects) and simulated clock + one-sided fail-closed oracle", "DESIGN.md §5 C43")
+
+add("C47", "E7 actors (sim-actors)", "exploration", "The unmodified libs/actors/src/lib.rs shadow-built against a tokio facade whose spawn/JoinHandle run on a seeded single-threaded executor (real tokio::sync and select!): random supervisor trees to depth 3 with blocking, early-finishing and long-running actors, stops and runtime termination at random steps, uniform and PCT schedules; when stop()/exec returns every actor under it has finished cleanup and every task under it is finished, nothing else was stopped, and no deadlock.", EXT + " spawn/JoinHandle, timers and signals are simulator stubs; every poll and every select! start branch is a recorded choice.", "deterministic simulation of task scheduling (seeded random + PCT executor) + stop-completeness / deadlock oracle", "DESIGN.md §5 C47")
+
 NOT_APPLICABLE = [
  ("C02", "Filter rewriting is a pure tree-to-tree function compared by evaluating two filters on an entry: no state, clock, I/O, fault or schedule for a simulator to own (its execution consequences are covered by C01's differential)."),
  ("C21", "Gid generation/validation is 32-bit arithmetic on the uuid or the supplied number; the property asks for a symbolic sweep of 2^32 values, which is not simulation."),
@@ -28,6 +37,20 @@ NOT_APPLICABLE = [
  ("C45", "unix_user_authorise is a pure predicate over (allowed-group list, token); the resolver paths around it need the HTTP client, which is not simulated."),
  ("C46", "RADIUS authorise/user_in_required_groups/resolve_group_configs are pure over (config, token) once the token is fetched; the fetch is HTTP and is not simulated."),
 ]
+
+ENGINE_INFO = {
+ E1: ("sim/src/cluster.rs", "1-3 real kanidm servers in one process under a simulated clock, replication transport, crash/restart and purge scheduler; seeded workload; step invariants and quiescence oracles"),
+ "E6 codec (sim-codec)": ("sim-codec/", "real replication codec over real tokio_util framing on a scripted duplex pipe"),
+ "E7 actors (sim-actors)": ("sim-actors/", "real libs/actors shadow-built against a tokio facade with a seeded single-threaded executor"),
+ "E8a pam (sim-pam)": ("sim-pam/", "test-cfg shadow build of pam_sparkle_common with scripted daemon, shadow database and clock"),
+}
+def engines(claimed):
+    out = []
+    names = sorted({CHECKS[p]["engine"] for p in claimed})
+    for n in names:
+        path, kind = ENGINE_INFO.get(n, ("sim/", ""))
+        out.append({"name": n, "path": path, "serves_properties": sorted(p for p in claimed if CHECKS[p]["engine"] == n), "kind_free_text": kind})
+    return out
 
 def main():
     only = None
@@ -71,9 +94,7 @@ def main():
             "source_commits": hook_commits,
             "add_only": True,
         },
-        "engines": [
-            {"name": "E1 cluster", "path": "sim/src/cluster.rs", "serves_properties": sorted(p for p in claimed if CHECKS[p]["engine"] == E1), "kind_free_text": "1-3 real kanidm servers in one process under a simulated clock, replication transport, crash/restart and purge scheduler; seeded workload; step invariants and quiescence oracles"},
-        ],
+        "engines": engines(claimed),
         "checks": checks,
         "not_applicable": na,
         "notes": "Exit codes of every command: 0 held, 1 violation (VIOLATION line), 2 harness error. Known findings: /verif/KNOWN_FINDINGS.json. Design: /verif/DESIGN.md.",
